@@ -8,15 +8,16 @@ import warnings
 warnings.simplefilter('ignore')
 VERIF = pathlib.Path(__file__).resolve().parent.parent
 sys.path.insert(0, str(VERIF))
-from harness import lean, pipelines, tables  # noqa: E402
+from harness import lean, pipelines, tables, translators  # noqa: E402
 
 tables.regenerate()
 pipelines.regenerate()
 ready = (VERIF / 'harness' / 'ready.txt').read_text().split()
-targets = ['EmsModel.Gen.Tables', 'EmsModel.Gen.Pipelines']
+targets = ['EmsModel.Gen.Tables', 'EmsModel.Gen.Pipelines'] + translators.regenerate()
 for pid in ready:
     mod = importlib.import_module(f'harness.props.{pid.lower()}')
     targets.append(mod.MODULE)
+    targets += list(getattr(mod, 'EXTRA_MODULES', []))
     if getattr(mod, 'DRIVER', None):
         targets += lean.driver_imports(mod.DRIVER)
 targets = sorted(set(targets))
